@@ -303,6 +303,7 @@ class BaseModelCrossSet(BaseModel):
         # Preprocess data
         X = self.preprocessor1.fit_transform(X, self.sample_dims, weights_X)
         Y = self.preprocessor2.fit_transform(Y, self.sample_dims, weights_Y)
+        self._validate_missing_samples()
         # Perform PCA
         X = self.pca1.fit_transform(X)
         Y = self.pca2.fit_transform(Y)
@@ -542,6 +543,20 @@ class BaseModelCrossSet(BaseModel):
             sample_name=self.sample_name,
             feature_name=self.feature_name,
         )
+
+    def _validate_missing_samples(self) -> None:
+        """Samples of both datasets are paired by position. Entirely missing samples are
+        removed from each dataset separately, so they must sit at the same positions."""
+        params = self.get_params()
+        if not all(params["check_nans"]):
+            return
+        valid1 = self.preprocessor1.sanitizer.transformers[0].is_valid_sample
+        valid2 = self.preprocessor2.sanitizer.transformers[0].is_valid_sample
+        if valid1.size == valid2.size and (valid1.values != valid2.values).any():
+            raise ValueError(
+                "The two datasets have entirely missing samples at different positions. "
+                "Please remove these samples from both datasets before fitting."
+            )
 
     def _augment_data(self, X: DataArray, Y: DataArray) -> tuple[DataArray, DataArray]:
         """Optional method to augment the data before fitting."""
